@@ -16,13 +16,16 @@ func checkC03(p *Prog, r *Report) {
 	r.Explain = "Decided statically: D1 every write to the DID store in a message handler is dominated on all paths by proof(...).err == nil, where `proof` is (by role) the module function from which PubKey.VerifySignature is reachable; D2 the proof's document argument is the *stored* document read under the key being written (update/deactivate) or the submitted, to-be-stored document (create), the signed datum is the document that gets stored (or DIDDocument{Id: did} for deactivation), key id and signature are the message's; D3 inside the proof function every nil-error return is dominated by: key found via doc.Authentications (no other relationship), key type ∈ {ES256K_2019, ES256K_2018} exactly, public key decoded from that method, verify(...).ok; D4 the verifier returns true only under VerifySignature(Marshal(DataWithSeq{Marshal(data), seq}), sig); D5 the lookup reports found only under id equality; D6 only handlers and InitGenesis call the setter. The did store key is handed to the did keeper constructor only."
 	r.NotDec = []string{"secp256k1 verification itself (cometbft)", "base58 decoding", "gogoproto marshalling determinism"}
 	r.Trusted = []string{"cometbft crypto/secp256k1", "btcutil/base58", "gogoproto"}
-	didRules(p, r, "C03", func(tag string) bool {
+	m03 := didRules(p, r, "C03", func(tag string) bool {
 		switch tag {
 		case "store", "proof", "proofbody", "life":
 			return true
 		}
 		return false
 	})
+	// control survives export/import: every entry — tombstones included — is imported under its key (a dropped tombstone lets anybody
+	// create the DID again with keys of their own)
+	didGenesisRules(p, r, m03, "C03")
 	checkLookupBody(p, r, "C03")
 	checkSignBytesBindMessage(p, r, "C03", "x/did")
 	// stored documents are what handlers wrote: code that rewrites them in a loop (listing, export, migration) decodes each entry
@@ -91,11 +94,15 @@ func checkC11(p *Prog, r *Report) {
 	r.Assume = []string{"ValidateBasic-before-handler sequencing of baseapp"}
 	m := didRules(p, r, "C11", func(tag string) bool {
 		switch tag {
-		case "bind", "store":
+		// proof: an ownership proof is checked against the document stored under the DID being written, so a proof made with keys of
+		// another document writes nothing here
+		case "bind", "store", "proof":
 			return true
 		}
 		return false
 	})
+	// verification-method ids (which proofs name) are rooted at the document's own DID: '<did>#…'
+	checkDidDocumentValid(p, r, func(rule, rest string) string { return rule + ":C11:" + rest })
 	didQueryRules(p, r, m, "C11", false, false, true)
 	// genesis import keeps the binding: every entry is stored whole under the very key it was exported under
 	didGenesisRules(p, r, m, "C11")
